@@ -134,8 +134,13 @@ impl<'a, P: for<'p> Protocol<'p>> DemoWriter<'a, P> {
         // Snap deltas always rely on the snap of the last tick in the demo.
         // They don't rely on the last keyframe.
         // For that, we always need to store the newest snap.
+        //
+        // The next snap has to number its extended item types like the
+        // newest one, otherwise the delta between the two mixes up items of
+        // different types. So the builder is recycled from the newest snap,
+        // not from the one before.
+        self.builder = new_snap.clone().recycle();
         self.snap = new_snap;
-        self.builder = old_snap.recycle();
         self.buf.clear();
         self.last_tick = tick;
         if is_keyframe {
